@@ -1,6 +1,7 @@
 package gen
 
 import (
+	"fmt"
 	"math/rand"
 	"strings"
 )
@@ -11,6 +12,7 @@ type JSStyle struct {
 	Semi   int // 0 explicit ';', 1 omitted before '}' and at the end, 2 also left to ASI at safe line breaks
 	WS     int // 0 compact, 1 single spaces, 2 random whitespace, comments and line breaks
 	Seed   int64
+	Bang   int // >0: about one separator in Bang is a bang comment (/*! … */ or //! …), which the parser keeps as Comment statements
 }
 
 // JSIdentOcc is one identifier token of the spelled program, in source order.
@@ -848,6 +850,22 @@ func JSSpell(p *JSProg, st JSStyle) (src string, idents []JSIdentOcc) {
 				need = false
 			}
 			sep := ""
+			if s.st.Bang > 0 && s.r.Intn(s.st.Bang) == 0 {
+				switch c := s.r.Intn(3); {
+				case c == 0 && !tk.noLT:
+					sep = " //! bang " + fmt.Sprint(i) + "\n"
+				case c == 1 && !tk.noLT:
+					sep = " /*! multi\n\tline " + fmt.Sprint(i) + " */ "
+				default:
+					sep = " /*! b" + fmt.Sprint(i) + " */ "
+				}
+				sb.WriteString(sep)
+				sb.WriteString(tk.s)
+				if tk.id != nil {
+					idents = append(idents, *tk.id)
+				}
+				continue
+			}
 			switch s.st.WS {
 			case 0:
 				if need {
